@@ -27,8 +27,7 @@ class Ctx:
     @property
     def lm(self):
         if self._lm is None:
-            import r_lock
-            self._lm = r_lock.LockModel(self.prog)
+            self._lm = props.make_lm(self)
         return self._lm
 
 
